@@ -132,7 +132,8 @@ def gen_pipeline(rnd, used_fields):
     stages = []
     for _ in range(rnd.choice([0, 1, 1, 2, 3])):
         kind = rnd.choice(["map", "map", "map", "prefix", "suffix"])
-        st = {"kind": kind, "scope": rnd.choice([None, None, None, ["include", rnd.sample(FIELDS, 2)], ["exclude", rnd.sample(FIELDS, 2)]])}
+        st = {"kind": kind, "scope": rnd.choice([None, None, None, ["include", rnd.sample(FIELDS, 2)], ["exclude", rnd.sample(FIELDS, 2)]]),
+              "logsrc": rnd.random() < 0.3}
         if kind == "map":
             m = {}
             pool = FIELDS + [f"{f}_m" for f in FIELDS] + ["m1", "m2"]
@@ -298,7 +299,7 @@ def doc_of(r):
 def make_pipeline(p):
     from sigma.processing.pipeline import ProcessingPipeline, ProcessingItem, QueryPostprocessingItem
     from sigma.processing.transformations import FieldMappingTransformation, AddFieldnamePrefixTransformation, AddFieldnameSuffixTransformation
-    from sigma.processing.conditions import IncludeFieldCondition, ExcludeFieldCondition
+    from sigma.processing.conditions import IncludeFieldCondition, ExcludeFieldCondition, LogsourceCondition
     from sigma.processing.postprocessing import EmbedQueryTransformation
     items = []
     for st in p["stages"]:
@@ -308,7 +309,10 @@ def make_pipeline(p):
         fc = []
         if st["scope"]:
             fc = [(IncludeFieldCondition if st["scope"][0] == "include" else ExcludeFieldCondition)(list(st["scope"][1]))]
-        items.append(ProcessingItem(t, field_name_conditions=fc))
+        # a rule condition that holds for every rule of the collection (all generated log sources have category 'c'; a correlation
+        # rule satisfies a log source condition through the rules it refers to, directly or through other correlation rules)
+        rc = [LogsourceCondition(category="c")] if st.get("logsrc") else []
+        items.append(ProcessingItem(t, field_name_conditions=fc, rule_conditions=rc))
     post = [QueryPostprocessingItem(EmbedQueryTransformation(prefix=CB.O + "pp ", suffix=CB.C_))] if p["pp"] else []
     return ProcessingPipeline(items, postprocessing_items=post)
 
